@@ -39,6 +39,15 @@ func mustParse(s string) interface{} {
 	return v
 }
 
+// rawText is a value given as its JSON text, written out verbatim in every presentation.  It is how texts that
+// no writer would produce from a value enter a document: escape pairs that are not a high + low surrogate pair
+// and lone surrogate escapes, which every JSON decoder reads as replacement characters.  Its value, where one
+// is needed for a comparison, is what encoding/json decodes.
+type rawText struct {
+	text string
+	lone bool // made by inserting a lone surrogate escape into a string (tamperLone), not by respelling a character
+}
+
 // clone copies a value tree.
 func clone(v interface{}) interface{} {
 	switch t := v.(type) {
@@ -109,6 +118,8 @@ func canonical(v interface{}) []byte { return render(v, &style{}) }
 
 func (s *style) value(b *bytes.Buffer, v interface{}) {
 	switch t := v.(type) {
+	case rawText:
+		b.WriteString(t.text)
 	case nil:
 		b.WriteString("null")
 	case bool:
@@ -251,4 +262,112 @@ func (s *style) str(b *bytes.Buffer, x string) {
 		}
 	}
 	b.WriteByte('"')
+}
+
+// illFormedSpellings lists, for a character outside the BMP, escape texts that are NOT its surrogate pair but
+// share the low ten bits of each half with it (low + low, high + high, low + high, high + BMP character) and the
+// two lone halves.  encoding/json decodes each to replacement characters (plus the BMP character).
+func illFormedSpellings(r rune) []string {
+	hi, lo := utf16.EncodeRune(r)
+	h, l := uint16(hi), uint16(lo)
+	return []string{
+		fmt.Sprintf(`\u%04X\u%04X`, h+0x400, l),       // low, low
+		fmt.Sprintf(`\u%04X\u%04x`, h, l-0x400),       // high, high
+		fmt.Sprintf(`\u%04x\u%04X`, h+0x400, l-0x400), // low, high
+		fmt.Sprintf(`\u%04x\u%04x`, h, l&0x3ff),       // high, BMP character (or control character) escape
+		fmt.Sprintf(`\u%04x`, h),                      // lone high
+		fmt.Sprintf(`\u%04X`, l),                      // lone low
+		fmt.Sprintf(`\u%04x\u%04x`, l, h),             // the pair in the wrong order
+	}
+}
+
+// tamperSurrogate rewrites the first character outside the BMP in the canonical text of v (in a string value or
+// in a member name, at any depth) to one of its ill-formed spellings.  ok is false if v has no such character.
+func tamperSurrogate(v interface{}, rng *rand.Rand) (rawText, bool) {
+	text := canonical(v)
+	for i := 0; i < len(text); {
+		r, n := utf8.DecodeRune(text[i:])
+		if r >= 0x10000 && r != utf8.RuneError {
+			sp := illFormedSpellings(r)
+			out := string(text[:i]) + sp[rng.Intn(len(sp))] + string(text[i+n:])
+			// it must be JSON that denotes another value
+			dec, err := parse([]byte(out))
+			if err != nil || sameValue(dec, v) {
+				panic(fmt.Sprintf("harness: ill-formed spelling %q of %q is not a different value (%v)", out, text, err))
+			}
+			return rawText{text: out}, true
+		}
+		i += n
+	}
+	return rawText{}, false
+}
+
+func hasRaw(top map[string]interface{}) bool {
+	for k, v := range top {
+		if _, ok := v.(rawText); ok && k != "signatures" && k != "unsigned" {
+			return true
+		}
+	}
+	return false
+}
+
+func hasLone(top map[string]interface{}) bool {
+	for k, v := range top {
+		if r, ok := v.(rawText); ok && r.lone && k != "signatures" && k != "unsigned" {
+			return true
+		}
+	}
+	return false
+}
+
+// tamperLone inserts one lone surrogate escape into a string of the canonical text of v (a value or a member
+// name, at any depth; before a character, before an escape sequence or at the end).  Every JSON decoder reads
+// one more replacement character there, so the result denotes another value.  ok is false if v has no string.
+func tamperLone(v interface{}, rng *rand.Rand) (rawText, bool) {
+	text := canonical(v)
+	if r, ok := v.(rawText); ok {
+		text = []byte(r.text)
+	}
+	var spots []int
+	in := false
+	for i := 0; i < len(text); {
+		c := text[i]
+		switch {
+		case !in:
+			in = c == '"'
+			i++
+			if in {
+				spots = append(spots, i)
+			}
+		case c == '"':
+			in = false
+			i++
+		case c == '\\' && text[i+1] == 'u':
+			i += 6
+			spots = append(spots, i)
+		case c == '\\':
+			i += 2
+			spots = append(spots, i)
+		default:
+			_, n := utf8.DecodeRune(text[i:])
+			i += n
+			spots = append(spots, i)
+		}
+	}
+	if len(spots) == 0 {
+		return rawText{}, false
+	}
+	for try := 0; try < 20; try++ {
+		at := spots[rng.Intn(len(spots))]
+		esc := []string{`\ud83d`, `\uDE00`, `\uD800`, `\udfff`, `\uDBFF`, `\udc00`}[rng.Intn(6)]
+		out := string(text[:at]) + esc + string(text[at:])
+		dec, err := parse([]byte(out))
+		if err != nil {
+			panic(fmt.Sprintf("harness: %q is not JSON: %v", out, err))
+		}
+		if !sameValue(dec, v) { // (a high surrogate put right before an escaped low one would complete a pair)
+			return rawText{text: out, lone: true}, true
+		}
+	}
+	return rawText{}, false
 }
